@@ -169,6 +169,7 @@ inductive Err where
   | full               -- target cell full (protocol precondition for moves, see harness)
   | placed | notPlaced -- protocol preconditions of the minimal occupancy model
   | noLayer | noHandle | noMask | impl   -- protocol errors: unknown id / op of the other implementation
+  | shadowed           -- `grid.<name>` is an attribute the user gave the grid object itself, not a layer
 deriving Repr, DecidableEq
 
 inductive Out where
@@ -213,6 +214,9 @@ structure State where
   inst : List ((String × Coord) × Int)
   /-- masks returned by earlier mask-form selections and kept by the user -/
   masks : List (Nat × (Coord → Bool))
+  /-- `new` only: names the user assigned on the grid object (`grid.<name> = x`: accepted only while no layer of
+      that name is attached); such an instance attribute is found before `HasPropertyLayers.__getattr__` is asked -/
+  gattrs : List String
 
 def upd {α : Type} (f : Nat → α) (i : Nat) (x : α) : Nat → α := fun j => if j = i then x else f j
 
@@ -224,7 +228,7 @@ def init (impl : Impl) (dims : List Nat) (cap : Nat) : State :=
     layers := fun _ => ⟨"empty", dims, 0⟩,
     nLayers := if impl = .new then 1 else 0,
     attached := if impl = .new then [("empty", 0)] else [],
-    handles := [], agents := [], inst := [], masks := [] }
+    handles := [], agents := [], inst := [], masks := [], gattrs := [] }
 
 def State.layer? (s : State) (lid : Nat) : Option Layer :=
   if lid < s.nLayers then some (s.layers lid) else none
@@ -533,8 +537,18 @@ def dump (s : State) (lid : Nat) : Out :=
   | none => .err .noLayer
   | some l => .arr ((cells l.dims).map (s.heap l.data))
 
-/-- `grid.<name>.data` (new, `__getattr__`)  /  `grid.properties[name].data` (legacy) -/
+/-- `grid.<name> = x` for a plain object `x` (`HasPropertyLayers.__setattr__`): `AttributeError` while a layer is
+    attached under that name, otherwise an ordinary instance attribute of the grid (the code's own note: the
+    protection only works if the attribute comes after the layer) -/
+def gridSet (s : State) (name : String) : State × Out :=
+  if s.impl ≠ .new then (s, .err .impl)
+  else if (s.named? name).isSome then (s, .err .attr)
+  else ({ s with gattrs := name :: s.gattrs }, .ok)
+
+/-- `grid.<name>.data` (new: the instance attribute if the user made one, else `__getattr__` = the attached layer)  /
+    `grid.properties[name].data` (legacy) -/
 def dumpName (s : State) (name : String) : Out :=
+  if s.impl = .new ∧ name ∈ s.gattrs then .err .shadowed else
   match s.named? name with
   | none => .err (if s.impl = .new then .attr else .key)
   | some lid => let l := s.layers lid; .arr ((cells l.dims).map (s.heap l.data))
@@ -770,6 +784,7 @@ inductive Op where
   | hdump (h : Nat)
   | dump (lid : Nat)
   | dumpName (name : String)
+  | gridSet (name : String)
   | dtype (lid : Nat)
   | layerSelect (lid : Nat) (p : Int → Bool)
   | aggregate (lid : Nat) (k : Agg)
@@ -829,6 +844,7 @@ def step (s : State) : Op → State × Out
   | .hdump h => (s, hdump s h)
   | .dump l => (s, dump s l)
   | .dumpName n => (s, dumpName s n)
+  | .gridSet n => gridSet s n
   | .dtype l => (s, dtypeRead s l)
   | .layerSelect l p => (s, layerSelect s l p)
   | .aggregate l k => (s, aggregate s l k)
